@@ -1017,6 +1017,8 @@ class TransportLayerLogic:
                     if self.params.wftmax == 0:
                         self._trigger_error(isotp.errors.UnsupportedWaitFrameError(
                             'Received a FlowControl requesting to wait, but wftmax is set to 0'))
+                    elif self.timer_rx_fc.is_timed_out():
+                        pass    # Came too late, it cannot extend the wait. Timeout handled below
                     elif self.wft_counter >= self.params.wftmax:
                         self._trigger_error(isotp.errors.MaximumWaitFrameReachedError(
                             'Received %d wait frame which is the maximum set in params.wftmax' % (self.wft_counter)))
